@@ -10,6 +10,7 @@ import numpy as np
 from hypothesis import strategies as st
 
 from ..core import Law, HarnessError
+from .. import gen
 from ..gen import fl
 from ..oracles import cp1 as O
 
@@ -296,7 +297,7 @@ def build_cr(disks, single):
     if single:
         D = CP1Disk(np.array(cs[0]), np.array(rs[0]))
         return D.complement() if outs[0] else D
-    D = CP1Disk(cs.copy(), rs.copy())
+    D = CP1Disk(gen.flavoured(cs.copy()), gen.flavoured(rs.copy()))
     if outs.all():
         return D.complement()
     if outs.any():
@@ -310,7 +311,7 @@ def build_raw(disks, raws, single):
     data = np.array([raw_data(d, rp) for d, rp in zip(disks, raws)])
     if single:
         return CP1Disk(data[0].copy())
-    return CP1Disk(data.copy())
+    return CP1Disk(gen.flavoured(data.copy()))
 
 
 def build(specs, real, single=False):
@@ -483,7 +484,7 @@ def body_spherical(case, ctx):
     if np.any(np.abs(np.abs(flatS[:, 2]) - 0.5) < 0.5):
         ctx.label("generic")
     # sphere -> projective -> sphere
-    P = CP1Point(S.copy(), coords="spherical")
+    P = CP1Point(gen.flavoured(S.copy()), coords="spherical")
     ctx.check(P.shape == shape, "shape of a point built from spherical coordinates",
               got=P.shape, want=shape)
     pd = np.asarray(P.proj_data).reshape((-1, 2))
@@ -522,7 +523,7 @@ def body_spherical(case, ctx):
     # projective -> sphere -> projective, all constructor routes
     zs = [cx(z) for z in case["zs"]]
     H = np.array([z_to_hom(z) * cx(s) for z, s in zip(zs, case["scales"])])
-    Q = CP1Point(H.reshape(shape + (2,)).copy())
+    Q = CP1Point(gen.flavoured(H.reshape(shape + (2,)).copy()))
     sph = np.asarray(Q.spherical_coords())
     ctx.check(sph.shape == shape + (3,), "spherical_coords shape", got=sph.shape)
     want = np.array([O.z_to_sphere(z) for z in zs]).reshape(shape + (3,))
@@ -537,13 +538,13 @@ def body_spherical(case, ctx):
         ctx.label("infinity")
     else:
         Z = np.array(zs, dtype=complex).reshape(shape)
-        A = CP1Point(Z.copy(), coords="cx_affine")
+        A = CP1Point(gen.flavoured(Z.copy()), coords="cx_affine")
         ctx.small("cx_affine constructor", O.chordal(
             np.asarray(A.proj_data).reshape((-1, 2)), H), 1e-13)
         ctx.close("affine_coords of a cx_affine point", np.asarray(A.affine_coords())[..., 0],
                   Z, rtol=1e-13, atol=1e-300)
         Rr = np.stack([Z.real, Z.imag], axis=-1)
-        B = CP1Point(Rr.copy(), coords="real_affine")
+        B = CP1Point(gen.flavoured(Rr.copy()), coords="real_affine")
         ctx.small("real_affine constructor", O.chordal(
             np.asarray(B.proj_data).reshape((-1, 2)), H), 1e-13)
         ctx.close("real_affine_coords", B.real_affine_coords(), Rr, rtol=1e-13, atol=1e-300)
@@ -699,7 +700,8 @@ def body_fs(case, ctx):
     N = np.array([it["n"] for it in items], dtype=float).reshape(shape + (3,))
     R = np.array([it["rad"] for it in items], dtype=float).reshape(shape)
     ctx.label("single" if single else "composite")
-    D = CP1Disk(N.copy(), R.copy(), radius_metric="fs", center_coords="spherical")
+    D = CP1Disk(gen.flavoured(N.copy()), gen.flavoured(R.copy()), radius_metric="fs",
+                center_coords="spherical")
     ctx.check(D.shape == shape, "shape of a Fubini-Study disk", got=D.shape, want=shape)
     disks = []
     amp = 1.0
